@@ -2,18 +2,22 @@ import Genshi.Wire
 import Genshi.WireCore
 import Genshi.Model.ParseHtml
 import Genshi.Model.ParseXml
+import Genshi.Model.ParseEnv
 /-
   C07 driver verbs (see harness/props/c07.py):
 
-    C07 html ( read... ) ( item... ) ( ( value ( ok stripped ) | ( err Name ) )... )
+    C07 html ( read... ) ( item... )          -- in the real environment `realEnv`: san's `stripentities`, full `str.lower`
         read = ( T item... ) | B | ( F sName T|F )   (item verbs are upper-case on the wire: ST SE ET D C PI CR ER DECL RAISE)
         item = ( st tag ( ( name value|N )... ) ) | ( se tag attrs ) | ( et tag ) | ( d text ) | ( c text )
              | ( pi data ) | ( cr name ) | ( er name ) | ( decl text ) | ( raise Name T|F )
     C07 xml ( read... ) ( item... )
-        read = ( t item... ) | ( f Name T|F ) | unenc
+        read = ( t item... ) | ( f Name T|F )
         item = ( se name ( ( n v )... ) ) | ( ee name ) | ( cd text ) | ( xd version enc|N standalone )
              | ( dt name sysid|N pubid|N T|F ) | ( ns pfx|N uri|N ) | ( ens pfx|N ) | sc | ec | ( pi t d )
-             | ( cm text ) | ( df text line col ) | ( xerr line col ) | ( raise Name T|F )
+             | ( cm text ) | ( df text line col ) | ( xerr line col ) | ( xenc line col ) | ( raise Name T|F )
+    C07 lower text                            -- `str.lower` (`pyLower`); answer: the string
+    C07 unent text                            -- `stripentities` (`stripReal`); answer: ( ok text ) | ( err Name )
+    C07 qname text                            -- `QName(text)` (`mkQName`); answer: ( ns local )
     Every callback item carries the tokenizer's position as two trailing atoms: ( ST tag attrs line col ) ...
     answer: ( ( ( event line col )... ) ok ) | ( ( ... ) ( parseError line col ) ) | ( ( ... ) ( propagate sName ) )
             | unmodelled
@@ -52,16 +56,6 @@ def htmlRead? : Sexp → Option HtmlReadP
   | .list (.atom "T" :: items) => do let l ← items.mapM htmlItem?; pure (.text l)
   | .list [.atom "F", .str n, b] => do let e ← exc? n b; pure (.fail e)
   | _ => none
-
-def stripRow? : Sexp → Option (Str × Except PyExc Str)
-  | .list [.str v, .list [.atom "ok", .str r]] => some (v, .ok r)
-  | .list [.str v, .list [.atom "err", .str n]] => some (v, .error (.exc n))
-  | _ => none
-
-def stripOf (tbl : List (Str × Except PyExc Str)) (v : Str) : Except PyExc Str :=
-  match tbl.find? (fun p => p.1 = v) with
-  | some p => p.2
-  | none => .error (.base "missing-strip-row".toList)
 
 def itemModelled : Item (HtmlCb × Pos) → Bool
   | .cb (.charref n, _) => charrefModelled n
@@ -104,11 +98,11 @@ def xmlItem? : Sexp → Option (Item (XmlCb × Pos))
   | .list [.atom "CM", .str s, l, c] => do let p ← pos? l c; pure (.cb (.comment s, p))
   | .list [.atom "DF", .str s, l, c] => do let p ← pos? l c; pure (.cb (.default_ s p.1 p.2, p))
   | .list [.atom "XERR", l, c] => do let l ← l.toInt?; let c ← c.toInt?; pure (.raise (.expat l c))
+  | .list [.atom "XENC", l, c] => do let l ← l.toInt?; let c ← c.toInt?; pure (.raise (.codec l c))
   | .list [.atom "RAISE", .str n, b] => do let e ← exc? n b; pure (.raise e)
   | _ => none
 
 def xmlRead? : Sexp → Option XmlReadP
-  | .atom "UNENC" => some .unencodable
   | .list (.atom "T" :: items) => do let l ← items.mapM xmlItem?; pure (.chunk l)
   | .list [.atom "F", .str n, b] => do let e ← exc? n b; pure (.fail e)
   | _ => none
@@ -133,13 +127,17 @@ partial def xnode? : Sexp → Option XNode
   | _ => none
 
 def handle : List Sexp → Option Sexp
-  | [.atom "html", .list reads, .list close, .list tbl] => do
+  | [.atom "html", .list reads, .list close] => do
       let reads ← reads.mapM htmlRead?
       let close ← close.mapM htmlItem?
-      let tbl ← tbl.mapM stripRow?
       if !(reads.all readModelled && close.all itemModelled) then pure (.atom "unmodelled") else
-      let env : Env := { strip := stripOf tbl, lower := asciiLower, void := Genshi.Gen.Output.parserEmptyElems }
-      pure (answer (htmlParseP env reads close))
+      pure (answer (htmlParseP realEnv reads close))
+  | [.atom "lower", .str s] => some (.str (pyLower s))
+  | [.atom "unent", .str s] =>
+      match stripReal s with
+      | .ok r => some (.list [.atom "ok", .str r])
+      | .error (.exc n) => some (.list [.atom "err", .str n])
+      | .error _ => some (.atom "err")
   | [.atom "xml", .list reads, .list close] => do
       let reads ← reads.mapM xmlRead?
       let close ← close.mapM xmlItem?
